@@ -394,7 +394,13 @@ pub(super) fn translate_literal(l: Literal, ctx: &Context) -> Result<sql_ast::Ex
     Ok(match l {
         Literal::Null => sql_ast::Expr::Value(Value::Null.into()),
         Literal::String(s) | Literal::RawString(s) => {
-            sql_ast::Expr::Value(Value::SingleQuotedString(s).into())
+            // sqlparser displays a quoted string without knowing whether it is already
+            // escaped: it leaves `''` and `\'` alone, so a value that contains such a
+            // sequence would come out un-escaped (and could end the literal). Here the
+            // content is known to be a plain value: double every quote and emit the
+            // result verbatim.
+            let escaped = s.replace('\'', "''");
+            sql_ast::Expr::Value(Value::Placeholder(format!("'{escaped}'")).into())
         }
         Literal::Boolean(b) => sql_ast::Expr::Value(Value::Boolean(b).into()),
         Literal::Float(f) => sql_ast::Expr::Value(Value::Number(format!("{f:?}"), false).into()),
